@@ -789,6 +789,7 @@ type panicSite struct{ key, pos, msg string }
 // panics, unchecked type assertions, kill sites and index/slice/make operations the zone prover cannot discharge.
 func goroutinePanicSites(p *Program, g *callgraph.Graph, fn *ssa.Function) (out []panicSite, nfns int) {
 	reach := unprotectedReach(g, fn)
+	nilled := nilledFields(p)
 	var fns []*ssa.Function
 	for f := range reach {
 		fns = append(fns, f)
@@ -796,6 +797,9 @@ func goroutinePanicSites(p *Program, g *callgraph.Graph, fn *ssa.Function) (out 
 	sort.Slice(fns, func(i, j int) bool { return fns[i].String() < fns[j].String() })
 	for _, f := range fns {
 		path := strings.Join(reach[f], " > ")
+		if InRepo(f) {
+			out = append(out, nilFieldUses(p, f, nilled)...)
+		}
 		for _, b := range f.Blocks {
 			for _, in := range b.Instrs {
 				switch x := in.(type) {
